@@ -520,4 +520,44 @@ def loadSites (c : Cfg) (permit strict : Bool) (m : Scaling) (orig : Bool) (recs
                   direct := direct },
          pslopes := px.slopes, pinters := px.inters }
 
+/-! ### headers handed on: `copy()`, `from_header`, `img.header`, a proxy built on the result
+
+Every way the library (or a user) passes a `PARRECHeader` on makes a NEW header object with the
+constructor: `hdr.copy()` (771-777), `PARRECHeader.from_header(hdr)` (759-765: `header.copy()` for a
+PARRECHeader), and `PARRECImage(dataobj, affine, header=hdr).header` (`SpatialImage.__init__`:
+`header_class.from_header(header)`).  The options live in the header (`permit_truncated`, `strict_sort`)
+or in the proxy built from it (`scaling`, an argument of `PARRECArrayProxy`). -/
+
+inductive HOp | copy | fromHeader | viaImage
+deriving DecidableEq, Repr
+
+def Hdr.apply (h : Hdr) : HOp → Except Err Hdr
+  | .copy => h.copy
+  | .fromHeader => h.copy
+  | .viaImage => h.copy
+
+def Hdr.chain (h : Hdr) : List HOp → Except Err Hdr
+  | [] => .ok h
+  | o :: os => do
+    let h' ← h.apply o
+    h'.chain os
+
+/-- load, hand the header on through `ops`, then observe EVERYTHING through the resulting header object
+    and a NEW `PARRECArrayProxy(rec_file, header, scaling=m)` built on it -/
+def loadChain (c : Cfg) (permit strict : Bool) (m : Scaling) (recs : List Rec) (ops : List HOp) :
+    Except Err SitesOut := do
+  let hdr ← Hdr.init c recs permit strict
+  let h ← hdr.chain ops
+  let px ← Proxy.init h m false
+  let slabs := recs.map (·.payload)
+  let data ← px.unscaled slabs
+  let idx ← h.sortedIndices false
+  let sc ← h.dataScaling m false
+  let labels ← h.volumeLabels false
+  let direct := isSequential px.idx
+  pure { out := { shape := px.shape, idx := idx, data := data, slopes := sc.1, inters := sc.2,
+                  labels := labels, pdata := if direct then slabs.take px.nUsed else data,
+                  direct := direct },
+         pslopes := px.slopes, pinters := px.inters }
+
 end Nb.C20
